@@ -1089,3 +1089,38 @@ func checkBoundsCheckNamesIndexedCollection(c *Ctx, rule string, fnNames []strin
 	}
 	c.Floor(rule, "validated index uses", n, 2)
 }
+
+// checkExportedWrapperAlwaysRunsWorker: an exported Store method that has an unexported worker of the same name
+// (AddCredit/addCredit, Rollback/rollback) validates its arguments and hands over: it reports success only through the
+// worker. A shortcut that returns nil first ("an output without value needs no tracking", "no block record at exactly this
+// height") silently drops a credit or a rollback.
+func checkExportedWrapperAlwaysRunsWorker(c *Ctx, rule string) {
+	p := c.P
+	n := 0
+	for _, fn := range p.FuncsIn("wtxmgr") {
+		if fn.Parent() != nil || fn.Object() == nil || !fn.Object().Exported() || recvName(fn) != "Store" {
+			continue
+		}
+		name := fn.Name()
+		worker := p.Func("wtxmgr", "Store", strings.ToLower(name[:1])+name[1:])
+		if worker == nil || !p.reachSet(fn)[worker] {
+			continue
+		}
+		n++
+		bad := p.mustPassToSuccess(fn, nil, func(ins ssa.Instruction) bool {
+			ci, ok := ins.(ssa.CallInstruction)
+			if !ok {
+				return false
+			}
+			g := ci.Common().StaticCallee()
+			return g == worker || (g != nil && g != fn && p.inRegion(fn, g) && p.reachSet(g)[worker])
+		}, nil)
+		pos := fn.Pos()
+		if bad != nil {
+			pos = bad.Pos()
+		}
+		c.Check(rule, "wrapper-always-runs-worker:"+name, pos, bad == nil,
+			"Store."+name+" can report success without having run "+worker.Name()+": the request (a credit to record, blocks to detach) is acknowledged and dropped")
+	}
+	c.Floor(rule, "exported store methods with a same-named worker", n, 2)
+}
